@@ -120,10 +120,14 @@ def refinement(ctx):
     bf = m.fn("barycentric_refinement")
     calls = [c for c in ast.walk(bf) if isinstance(c, ast.Call) and unparse(c.func) == "Grid"]
     bdefs = roles.Defs(bf)
-    if not (len(calls) == 1 and len(calls[0].args) >= 3):
+    if len(calls) != 1:
         raise AnalysisError("barycentric_refinement: the Grid(vertices, elements, domain indices) construction was not found")
-    okb = bary.per_child_sequence(roles.inline(calls[0].args[2], bdefs), "%s.domain_indices" % arg_names(bf)[0], 6, "barycentric_refinement")
-    r2.check(okb, "barycentric domain indices", GRID, "barycentric_refinement", bf.lineno, "barycentric domain indices", "domain indices are not repeated 6 times per element")
+    dom = calls[0].args[2] if len(calls[0].args) >= 3 else next((k.value for k in calls[0].keywords if k.arg == "domain_indices"), None)
+    if dom is None or (isinstance(dom, ast.Constant) and dom.value is None):
+        okb = False  # the constructor fills in zeros: every sub-triangle reports domain index 0
+    else:
+        okb = bary.per_child_sequence(roles.inline(dom, bdefs), "%s.domain_indices" % arg_names(bf)[0], 6, "barycentric_refinement")
+    r2.check(okb, "barycentric domain indices", GRID, "barycentric_refinement", bf.lineno, "barycentric domain indices", "the barycentric grid does not carry its parent's domain indices, each repeated for the 6 sub-triangles of the element (a callable that reads domain_index, segments and swapped normals on barycentric spaces see other indices)")
 
 
 def run(ctx):
